@@ -120,6 +120,8 @@ def core_variants():
     add('nr_Cf_bol', 'nr', PLAIN + ('bol',), ['full'])
     add('nr_CF_bol', 'nr', PLAIN + ('bol',), ['fast'], note='D1')
     add('r_CF_bol', 'r', PLAIN + ('bol',), ['fast'], note='D1')
+    add('c99_CF_bol', 'c99', PLAIN + ('bol',), ['fast'], note='D47')
+    add('go_CF_bol', 'go', PLAIN + ('bol',), ['fast'], note='D47')
     # features one at a time
     add('nr_array', 'nr', NOREJ, ['array', 'yylineno'])
     add('c99_array', 'c99', NOREJ, ['array'])
